@@ -21,7 +21,7 @@ func init() {
 			"C06.empty: DefaultComparePreRelease over (len(a)?0, len(b)?0): both empty 0, only a empty +1, only b empty −1. " +
 			"C06.build: no function reachable from Ver.Compare reads Ver.Build. C06.entry: the six string helpers parse both inputs with their own parser, test both errors, and return parse(a).Compare(parse(b)) / .Latest; an error is returned only behind the failing edge of one of the two parse calls. C06.parse: the decision table of sem.unmarshalText and its field ← capture mapping (as C03.gate / C03.num): the compared fields are the captures of the pattern applied to the whole input. C06.latest: Ver.Latest returns the argument exactly when Compare = −1 and the receiver otherwise (as C14.latest). " +
 			"C06.sep: some constant containing '.' is used by the code reachable from DefaultComparePreRelease (identifier-wise comparison must see the separator). " +
-			"C06.num: where the code establishes that both operands are all-digit, every path to the result contains a length comparison or numeric conversion.",
+			"C06.num: where the code establishes that both operands are all-digit, every path to the result contains a length comparison or numeric conversion. C06.range: every result of the comparison chain lies in {−1,0,1} (C14.range under this property) — Latest and the helpers test it against −1 / 1.",
 		NotDecided:  []string{"full conformance of the identifier-wise comparison for all strings (value-level string scan)", "the pinned a01 == a1 departure is untouched by every rule"},
 		Assumptions: []string{"strings.Compare ∈ {-1,0,1}"},
 		Technique:   "predicate abstraction over orderings + field-access and constant-use rules over go/ssa",
@@ -55,6 +55,9 @@ func runC06(e *Env) {
 	}
 	e.S.Floor("C06.sep", 1)
 	e.S.Floor("C06.num", 1)
+	// Latest and the string helpers test the result against −1 / 1: the comparison's range is {−1,0,1} (C14.range)
+	e.As(map[string]string{"C14.range": "C06.range"}, func() { ruleC14Range(e) })
+	e.S.Floor("C06.range", 3)
 }
 
 // ruleC06Core: Ver.Compare over the 27 orderings of (Major, Minor, Patch).
